@@ -19,7 +19,10 @@ SPEC = {
              "PrepareConnection / CheckMappingQuota / DialTunnel / RegisterTunnel), CreateConnection also with the id from the "
              "writer only, through AcceptConnection and with server-generated ids (`conng`), revoked codes / mappings in the "
              "client's index (`dead`), default quotas 10 / 50 at quota-1, code occupancy = max(index count, handed-out codes still "
-             "valid), "
+             "valid), revocation through the service (`v`: RevokeConnectionCode of the own code, five gated storage calls outside the "
+             "quota mutex; `v<k>`: the k-th call fails - fault-injecting store wrapper) racing a request at the quota, the racer placed "
+             "in <= 2 blocks anywhere among the revocation's steps; the code occupancy is the number of codes that are COUNTED "
+             "(index + by-id copy) OR can be ACTIVATED (scan of the by-code copies), "
              "BaseMappingHandler.handleConnection (per-mapping limit from the mapping config and from the user quota; real Tunnel objects "
              "over net.Pipe), conncode.Service.CreateConnectionCode over ConnectionCodeRepository over a gated memory storage (one step = "
              "one storage call) and ActivateConnectionCode with gated GetClientPortMappings/CreatePortMapping over the real port-mapping "
@@ -57,6 +60,10 @@ SPEC = {
         "WF: the initial occupancy is within the cap (capOk limit pre); limit 0 means unlimited for the session caps, the tunnel "
         "registry and the mapping handler (`> 0 &&` guard, extracted) and means 'nothing allowed' for the two conncode quotas (no guard "
         "in the source; the model follows the source)",
+        "code quota: a code is admitted for the observer when its by-code record exists (the request still writes the by-id copy "
+        "and the index entry inside the critical section: `post = 2`); the count is modelled as the scan it is (one record read per "
+        "index entry, counted iff active when read), revoked codes stay in the index; single storage faults are injected into "
+        "revocations only (creation faults: rollback paths, outside the quantifier)",
         "quotas (code, mapq): serialisation hypothesis of the proof = one mutex per service instance around count+check+create "
         "(pinned by the skeletons of CreateConnectionCode / ActivateConnectionCode); proved for any number of concurrent requests "
         "(own and other clients) to ONE service instance; two instances on one store "
